@@ -129,6 +129,11 @@ ValuesOK(o, X, d, p, w, ncols, G) ==
               r == SymKrum(G, f, k)
           IN  /\ o.krum[q].f = f /\ o.krum[q].k = k
               /\ ~r.amb => o.krum[q].val = SymKrumValue(r.sel, k, X, d, ncols)
+    \* GradDrop with the 0/1-valued purity functions of the model, with and without leak p / 4 (deterministic)
+    /\ Len(o.gd) = Len(GDCfgSeq)
+    /\ \A q \in 1..Len(GDCfgSeq) :
+          /\ o.gd[q].f = GDCfgSeq[q][1] /\ o.gd[q].leak = GDCfgSeq[q][2]
+          /\ o.gd[q].val = SymGDVal(GDCfgSeq[q][1], GDLeak(GDCfgSeq[q][2], p), X, d, ncols)
 
 C_Base  == ValuesOK(E.out0, base.J, 1, base.P, base.W, N0, GBase)
 C_Trans == ValuesOK(E.out1, J, den, P, W, N, GNow)
@@ -138,6 +143,8 @@ C_LawSym ==
     /\ E.out1.mean = TimesQ(E.out0.mean) /\ E.out1.sum = TimesQ(E.out0.sum)
     /\ E.out1.constP = TimesQ(E.out0.constP) /\ E.out1.constW = TimesQ(E.out0.constW)
     /\ QIsColPerm => \A b1 \in 1..NTM : E.out1.tm[b1].val = TimesQ(E.out0.tm[b1].val)
+    /\ QIsColPerm => \A q \in 1..Len(GDCfgSeq) :
+          E.out1.gd[q].val = TimesQ(E.out0.gd[q].val)          \* the leak vector moves with the rows
     /\ \A q \in 1..Len(KCfgSeq) :
           ~SymKrum(GBase, KCfgSeq[q] \div 10, KCfgSeq[q] % 10).amb
              => E.out1.krum[q].val = TimesQ(E.out0.krum[q].val)
@@ -156,7 +163,7 @@ C_LawScale ==
 C_PyClass == /\ E.cls.rank = cls.rank /\ E.cls.rankUnamb = cls.rankUnamb /\ E.cls.detNZ = cls.detNZ
              /\ E.cls.trG = cls.trG /\ E.cls.lamFloor = cls.lamFloor /\ E.cls.conflictFree = cls.conflictFree
              /\ E.cls.mgdaTie1 = cls.mgdaTie1 /\ E.cls.mgdaGd = cls.mgdaGd
-             /\ E.cls.imtlgDegenerate = cls.imtlgDegenerate /\ E.prefDeg = PrefDeg
+             /\ E.cls.imtlgDegenerate = cls.imtlgDegenerate /\ E.prefDeg = PrefDeg /\ E.zeroM = ZeroMatrix
              /\ E.cls.detCol = cls.detCol /\ E.cls.colFull = cls.colFull /\ E.cls.equalNorm = cls.equalNorm
              \* the driver's own exact ConFIG data (direction, coefficients of the length) are the model's
              /\ \A q \in 1..Len(E.flt) : E.flt[q].col =>
@@ -180,6 +187,10 @@ ReasonTrue(f) == CASE f.reason = "rank"     -> f.needsRank /\ ~cls.rankUnamb /\ 
 ClassOK(f) == IF f.compared THEN ~Excluded(f) ELSE ReasonTrue(f)
 C_Class == \A q \in 1..Len(E.flt) : ClassOK(E.flt[q])
 C_Float == \A q \in 1..Len(E.flt) : E.flt[q].compared => E.flt[q].ok
+\* C09: c -> ConFIG(diag(c) J) is DEFINED on every finite matrix (float64, float32), compared or not; on the zero matrix
+\* (NullLaw: the floating-point direction is exactly null) every value is the zero vector of the dtype of the matrix
+C_Defined == \A q \in 1..Len(E.flt) : E.flt[q].defined
+DefinedOK(f) == f.defined
 
 FirstBad(pred(_)) == LET bad == {q \in 1..Len(E.flt) : ~pred(E.flt[q])}
                      IN  IF bad = {} THEN "none" ELSE E.flt[CHOOSE q \in bad : \A r \in bad : q <= r].agg
@@ -194,6 +205,7 @@ Failing ==
     ELSE IF E.kind = "scale" /\ ~C_LawScale THEN [clause |-> "law_c09", agg |-> "exact"]
     ELSE IF ~C_PyClass THEN [clause |-> "classification_differs_from_model", agg |-> "none"]
     ELSE IF ~C_Class THEN [clause |-> "classification", agg |-> FirstBad(ClassOK)]
+    ELSE IF ~C_Defined THEN [clause |-> "defined_on_every_finite_matrix", agg |-> FirstBad(DefinedOK)]
     ELSE IF ~C_Float THEN [clause |-> "float_relation", agg |-> FirstBad(FloatOK)]
     ELSE [clause |-> "none", agg |-> "none"]
 
